@@ -31,12 +31,12 @@ pub fn def() -> PropDef {
         level: "model_checking",
         rule: "explicit-state search over two real LiveActors (never run; driven through their own handlers) sharing a document: events {Trigger(node, NewNeighbor|SyncReport|DirectJoin) -> sync_with_peer (an approved dial is logged instead of being spawned), Deliver(dial) -> the acceptor's accept_sync_request, Lose(dial), for a declined dial the two independent completions (RemoteAbort at the initiator, AcceptError::Abort at the acceptor), for an accepted dial InitiatorDone(ok|fail) and AcceptorDone(ok|fail) in any order; Leave(node) (the coordination part of leaving the document; at most one per history and final within it); Resync dials emitted by the handlers are captured from the dial log}, up to N dials; invariants S1 (at most one accepted dial with both ends unfinished), S2 (crossing dials: exactly one Allow and one Reject(AlreadySyncing)), S3 (a refused sync report leads to exactly one follow-up dial at the end of the busy period, never a spurious one), S4 (in every quiescent state both nodes are Idle for the pair and will dial and accept), S5 (a document outside the sync set — never joined, or left, whatever completions of older sessions arrive afterwards — is declined NotFound and not dialed); canonical state = both coordination snapshots + multiset of in-flight dials and pending completions; non-trivial = histories with a declined, lost or failed dial or two dials in flight at once",
         assumptions: &[
-            "the handlers read nothing but the coordination state (no subscribers, no downloads queued), which is why merging on the snapshot preserves futures",
+            "besides the coordination state the handlers read only whether a content download of the document is queued (explored both ways, constant within a search) and the subscriber list (empty), which is why merging on the snapshot preserves futures",
             "network behaviour is abstracted as: a dial is delivered or lost; the two ends of a session complete independently, successfully or not",
         ],
         bound: |t| match t {
-            Tier::Quick => json!({"searches": ["3 dials, no leave", "3 dials, one leave"], "trigger_reasons": ["NewNeighbor", "SyncReport", "DirectJoin"]}),
-            Tier::Thorough => json!({"searches": ["4 dials, no leave", "4 dials, one leave"], "trigger_reasons": ["NewNeighbor", "SyncReport", "DirectJoin"]}),
+            Tier::Quick => json!({"searches": ["3 dials, no leave", "3 dials, one leave (trigger reasons NewNeighbor and SyncReport only)", "3 dials, no leave, a download of the document queued"], "trigger_reasons": ["NewNeighbor", "SyncReport", "DirectJoin"]}),
+            Tier::Thorough => json!({"searches": ["4 dials, no leave", "4 dials, one leave", "4 dials, no leave, a download of the document queued"], "trigger_reasons": ["NewNeighbor", "SyncReport", "DirectJoin"]}),
         },
         run,
         replay,
@@ -291,9 +291,13 @@ impl Model {
 }
 
 /// Execute a history. Returns None if the last event is not enabled.
-fn exec(hist: &[Ev], max_dials: usize, max_leaves: u32) -> Option<(Bad, String, String, Vec<Ev>)> {
+fn exec(hist: &[Ev], max_dials: usize, max_leaves: u32, queued: bool) -> Option<(Bad, String, String, Vec<Ev>)> {
     with_pair(|pair| {
         reset(pair);
+        // environment of the completion handlers: is a content download of the document queued?
+        for n in pair.nodes.iter_mut() {
+            n.actor.verif_set_download_queued(ns(), queued);
+        }
         let ids = [pair.nodes[0].id, pair.nodes[1].id];
         let mut m = Model {
             dials: vec![],
@@ -849,21 +853,26 @@ fn events(max_dials: usize, all_reasons: bool) -> Vec<Ev> {
 fn run(ctx: &Ctx, report: &mut Report) {
     crate::util::silence_panics();
     // (dials, leaves): the second search adds "a node leaves the document" with one dial less
-    let searches: Vec<(usize, u32)> = if ctx.quick() {
-        vec![(3, 0), (3, 1)]
+    // the third search repeats the first with a content download of the document queued at both
+    // nodes (the only other thing the completion handlers read besides the coordination state)
+    let searches: Vec<(usize, u32, bool)> = if ctx.quick() {
+        vec![(3, 0, false), (3, 1, false), (3, 0, true)]
     } else {
-        vec![(4, 0), (4, 1)]
+        vec![(4, 0, false), (4, 1, false), (4, 0, true)]
     };
-    for (max_dials, max_leaves) in searches {
+    for (max_dials, max_leaves, queued) in searches {
         let t0 = std::time::Instant::now();
-        let evs = events(max_dials, true);
-        report.fact(&format!("events_{max_dials}_dials_{max_leaves}_leaves"), json!(evs.len()));
+        // quick tier: the search with a leave uses two trigger reasons (NewNeighbor and DirectJoin
+        // differ only in identity for the coordination code); the other searches use all three
+        let evs = events(max_dials, !(ctx.quick() && max_leaves > 0));
+        let tag = if queued { "_download_queued" } else { "" };
+        report.fact(&format!("events_{max_dials}_dials_{max_leaves}_leaves{tag}"), json!(evs.len()));
         let depth = 4 * max_dials + 2 + max_leaves as usize;
         let mut evals = 0u64;
         let mut nt = 0u64;
         bfs(ctx, report, &evs, depth, 2, |h, report, ordinal| {
-            let res = catch(|| exec(h, max_dials, max_leaves));
-            let case = json!({"hist": h, "max_dials": max_dials, "max_leaves": max_leaves});
+            let res = catch(|| exec(h, max_dials, max_leaves, queued));
+            let case = json!({"hist": h, "max_dials": max_dials, "max_leaves": max_leaves, "queued": queued});
             match res {
                 Err(p) => {
                     report.violation("no_panic", json!({}), case, format!("panic: {p}"), ordinal);
@@ -892,8 +901,8 @@ fn run(ctx: &Ctx, report: &mut Report) {
         });
         report.evaluations += evals;
         report.nontrivial += nt;
-        report.maximum(&format!("slowest_worker_ms_{max_dials}_dials_{max_leaves}_leaves"), t0.elapsed().as_millis() as u64);
-        report.count(&format!("worker_ms_sum_{max_dials}_dials_{max_leaves}_leaves"), t0.elapsed().as_millis() as u64);
+        report.maximum(&format!("slowest_worker_ms_{max_dials}_dials_{max_leaves}_leaves{tag}"), t0.elapsed().as_millis() as u64);
+        report.count(&format!("worker_ms_sum_{max_dials}_dials_{max_leaves}_leaves{tag}"), t0.elapsed().as_millis() as u64);
     }
 }
 
@@ -901,7 +910,8 @@ fn replay(case: &Value) -> anyhow::Result<(bool, String)> {
     let hist: Vec<Ev> = serde_json::from_value(case["hist"].clone())?;
     let max_dials = case["max_dials"].as_u64().unwrap_or(5) as usize;
     let max_leaves = case["max_leaves"].as_u64().unwrap_or(1) as u32;
-    match catch(|| exec(&hist, max_dials, max_leaves)) {
+    let queued = case["queued"].as_bool().unwrap_or(false);
+    match catch(|| exec(&hist, max_dials, max_leaves, queued)) {
         Err(p) => Ok((true, format!("panic: {p}"))),
         Ok(None) => Ok((false, "history not enabled".into())),
         Ok(Some((bad, key, observed, _))) => {
